@@ -79,10 +79,17 @@ pub fn generate(rng: &mut Rng, tier: Tier) -> Value {
         // split across evaluations sometimes: same drain points in every configuration
         let mut parts: Vec<String> = if weak || rng.chance(1, 3) { ks } else { vec![ks.concat()] };
         if weak {
+            if rng.chance(1, 2) {
+                // a registry whose cleanup callback throws for some held values: the registration is
+                // gone all the same, and the other dead cells are reported by later cleanups
+                let t = kernels::KERNELS.iter().find(|k| k.name == "weak-throwing-cleanup").expect("kernel");
+                parts.push(kernels::instantiate(t, rng));
+            }
             // observe in later host entries, after the kept-alive list of earlier jobs was cleared
             let obs = kernels::KERNELS.iter().find(|k| k.name == "weak-observe").expect("kernel");
-            parts.push(kernels::instantiate(obs, rng));
-            parts.push(kernels::instantiate(obs, rng));
+            for _ in 0..rng.range(2, 4) {
+                parts.push(kernels::instantiate(obs, rng));
+            }
         }
         (format!("kernels:{}", names.join("+")), parts, weak)
     };
@@ -214,9 +221,22 @@ fn run_once(sc: &Scenario, collect: bool) -> Outcome {
             out.log.push(format!("#{i} {c}"));
             out.log.extend(host.trace.take());
             boundary(&mut out);
-            let j = ctx.run_jobs();
-            if let Err(e) = &j {
-                out.log.push(format!("#{i} jobs:{}", js::error_string(e, &mut ctx)));
+            // An error thrown by a FinalizationRegistry cleanup callback comes out of run_jobs; like
+            // the callback itself it belongs to the weak-observation channel, and the host drains again.
+            for _attempt in 0..40 {
+                let j = ctx.run_jobs();
+                match &j {
+                    Err(e) => {
+                        let msg = js::error_string(e, &mut ctx);
+                        if msg.contains("cleanup-throw") {
+                            host.weak.push(format!("cleanup-error {msg}"));
+                            continue;
+                        }
+                        out.log.push(format!("#{i} jobs:{msg}"));
+                    }
+                    Ok(()) => {}
+                }
+                break;
             }
             out.log.extend(host.trace.take());
             // the host's part of ClearKeptObjects: synchronous execution has completed
@@ -277,6 +297,9 @@ fn check_weak(obs: &[String], rep: &mut RunReport, which: &str) {
         }
         if o == "kept-deref false" {
             rep.violate("weak-kept-collected", format!("{which}: WeakRef.deref() of a reachable object returned undefined"));
+        }
+        if o.starts_with("cleanup-error ") {
+            rep.probe("cleanup_callback_threw", 1);
         }
         if let Some(h) = o.strip_prefix("finalized ") {
             rep.probe("finalization_callback", 1);
@@ -389,7 +412,7 @@ pub const PROP: Prop = Prop {
     generate,
     execute,
     shrink,
-    rule: "one run = one program (1..3 kernels out of 41 feature kernels, possibly split across evaluations, one of 858 harvested test groups = several evaluations sharing a context, or — 1 run in 8 each — a fault-free module graph from the C17 generator evaluated twice through the simulated loader, or one of C16's 2493 generated promise / async-generator programs) x evaluation mode (sync / budget 1..256 with collections at yields) x collection schedule (every k-th allocation for k in {1,2,3,7,64} — k=1 enumerates every allocation point of the program —, seeded Bernoulli at 0.2..20 %, host-entry and job boundaries), executed under the schedule and under 'never collect'; non-trivial = at least one collection was injected; distinct = distinct (program, schedule, budget, allocation points, collections fired)",
+    rule: "one run = one program (1..3 kernels out of 42 feature kernels (weak kernels incl. a registry whose cleanup callback throws, observed over 2..4 later host entries that register further short-lived targets), possibly split across evaluations, one of 858 harvested test groups = several evaluations sharing a context, or — 1 run in 8 each — a fault-free module graph from the C17 generator evaluated twice through the simulated loader, or one of C16's 2493 generated promise / async-generator programs) x evaluation mode (sync / budget 1..256 with collections at yields) x collection schedule (every k-th allocation for k in {1,2,3,7,64} — k=1 enumerates every allocation point of the program —, seeded Bernoulli at 0.2..20 %, host-entry and job boundaries), executed under the schedule and under 'never collect'; non-trivial = at least one collection was injected; distinct = distinct (program, schedule, budget, allocation points, collections fired)",
     real: &["lexer/parser/compiler/VM/builtins", "boa_gc collector and allocator", "SimpleJobExecutor", "WeakRef/FinalizationRegistry machinery"],
     stub: &["collection trigger decision (hook H1)", "SimClock", "SimHooks", "print/weakobs natives"],
     assumptions: &[
